@@ -41,7 +41,14 @@ namespace crypto {
 			}
 			virtual void append(void const *ptr,size_t size) 
 			{
-				impl::md5_append(&state_,reinterpret_cast<impl::md5_byte_t const *>(ptr),size);
+				// md5_append() takes an int: feed it in pieces it can count
+				impl::md5_byte_t const *p = reinterpret_cast<impl::md5_byte_t const *>(ptr);
+				while(size > 0) {
+					size_t n = size > (1u << 27) ? (1u << 27) : size;
+					impl::md5_append(&state_,p,static_cast<int>(n));
+					p += n;
+					size -= n;
+				}
 			}
 			virtual void readout(void *ptr)
 			{
